@@ -3,6 +3,21 @@
 import json, sys
 
 CHECKS = {
+ "C01": ("proptest-driven generation of (type, payload, source, answer script) with a recording scripted error type; invariant over the recorded history (conservation of report ids)",
+         "Samples the four axes the property quantifies over (types incl. random derive inputs, payloads with injected faults, two value sources, Continue/Break answer sequences); every case is judged by an exact, model-free conservation law, so any container that drops, duplicates or invents a report on an exercised path is caught.",
+         "Rec keeps every id it is handed; ids are issued per error()/foreign merge() call. Absence is not established: sampled, not exhaustive.", "DESIGN.md §6 C01"),
+ "C03": ("proptest-driven generation + exhaustive enumeration of every switch position k per case; trace-prefix equality and post-stop invariant; differential against JsonError/QueryParamError rendering of the first keep-going report",
+         "For each generated (type, payload, source) ALL Continue^k-then-Break scripts are run and compared with the keep-going history, plus arbitrary scripts; the fail-fast built-in error types are compared with the first keep-going report re-rendered through their public API.",
+         "'Nothing further is examined' is observed through visits of the instrumented source and probe calls only.", "DESIGN.md §6 C03"),
+ "C04": ("proptest-driven generation; model-free truth check of every report against the payload at its location, and producer rule for hand-over locations",
+         "Every report of every generated run is resolved in the original payload and checked for truth; every hand-over location is checked to be the child's own position. Faults are injected at every index/key, not only the first.",
+         "For the serde_json source the payload is judged in serde_json's view (sorted, de-duplicated keys).", "DESIGN.md §6 C04"),
+ "C12": ("proptest-driven adversarial generation (type-blind, deep nests to 128, duplicate keys, non-finite floats, arbitrary scripts) with catch_unwind around deserialize",
+         "Totality is sampled broadly: every catalogue type against well-typed, ill-typed, blind and pathological payloads through both sources, Rec with arbitrary scripts, JsonError and QueryParamError.",
+         "Stack exhaustion deeper than serde_json's own limit is out of scope; absence of panics is sampled, not proven.", "DESIGN.md §6 C12"),
+ "C15": ("proptest-driven generation + exhaustive permutations of every small object; metamorphic relation (outcome invariant under member permutation) through an order-preserving value source",
+         "All permutations of each object with <= 4 members (one at a time) and random global permutations are run for every generated case and compared on value and report multiset.",
+         "Duplicate keys and keys colliding after parsing are excluded (order-dependent by nature).", "DESIGN.md §6 C15"),
  # id: (technique, level text, level note, design ref)
  "C17": ("exhaustive enumeration + random sequences (proptest RNG); metamorphic (order/multiplicity) and exact-cover oracle",
          "Every kind sequence up to length 5 is enumerated (exhaustive: any dependence on order or multiplicity among <=5 entries, and any wrong phrase for any of the 255 non-empty sets, is found); longer sequences are sampled.",
